@@ -3,6 +3,8 @@ package main
 import (
 	"fmt"
 	"go/types"
+	"path/filepath"
+	"strconv"
 	"strings"
 )
 
@@ -88,7 +90,49 @@ func (m *Machine) sprintf(format string, args []Value) StrV {
 	return m.mkStr(fmt.Sprintf(strings.ReplaceAll(format, "%w", "%v"), gv...))
 }
 
+// nativeConcrete wraps a pure library function: evaluated natively when every argument is concrete, otherwise the
+// real SSA body is executed (the intrinsic declines with errDecline).
+type declineT struct{}
+
+func nativeStr1(fn func(string) string) intrinsic {
+	return func(m *Machine, th *Thread, fr *Frame, f FuncV, a []Value) (Value, invStatus) {
+		s, ok := m.strConcrete(a[0].(StrV))
+		if !ok {
+			panic(declineT{})
+		}
+		return done(m.mkStr(fn(s)))
+	}
+}
+
 func addLib(T map[string]intrinsic) {
+	T["path/filepath.Dir"] = nativeStr1(filepath.Dir)
+	T["path/filepath.Base"] = nativeStr1(filepath.Base)
+	T["path/filepath.Clean"] = nativeStr1(filepath.Clean)
+	T["path/filepath.Join"] = func(m *Machine, th *Thread, fr *Frame, f FuncV, a []Value) (Value, invStatus) {
+		var parts []string
+		for _, v := range m.variadicArgs(a[0]) {
+			s, ok := m.strConcrete(v.(StrV))
+			if !ok {
+				panic(declineT{})
+			}
+			parts = append(parts, s)
+		}
+		return done(m.mkStr(filepath.Join(parts...)))
+	}
+	T["strconv.Itoa"] = func(m *Machine, th *Thread, fr *Frame, f FuncV, a []Value) (Value, invStatus) {
+		t := a[0].(*Term)
+		if !t.IsConst() {
+			panic(declineT{})
+		}
+		return done(m.mkStr(strconv.FormatInt(t.SInt(), 10)))
+	}
+	T["strconv.FormatInt"] = func(m *Machine, th *Thread, fr *Frame, f FuncV, a []Value) (Value, invStatus) {
+		t, b := a[0].(*Term), a[1].(*Term)
+		if !t.IsConst() || !b.IsConst() {
+			panic(declineT{})
+		}
+		return done(m.mkStr(strconv.FormatInt(t.SInt(), int(b.SInt()))))
+	}
 	T["fmt.Errorf"] = func(m *Machine, th *Thread, fr *Frame, f FuncV, a []Value) (Value, invStatus) {
 		format, ok := m.strConcrete(a[0].(StrV))
 		if !ok {
